@@ -190,6 +190,8 @@ def to_latex_document(F, fileorname, export_header=True, extra_text=""):
     output.write(latex_preamble)
     output.write("\\begin{document}\n")
     title = F.header['description']
+    # e.g. the name of an input file which is not valid utf-8
+    title = title.encode('utf-8', errors='replace').decode('utf-8')
     title = title.replace("_", "\\_")
     output.write("\\title{{{}}}\n".format(title))
     output.write("\\author{CNFgen formula generator}\n")
